@@ -325,13 +325,6 @@ impl World {
             }
             "clone" | "drop" | "down" | "up" | "alive" | "ident" | "erase" => self.handle_op(c, cmd),
             "quiesce" => {
-                // the model believes nothing can move any more; if the implementation disagrees
-                // (something is still pending or parked) let it run to its own quiescence first
-                let busy = !PENDING.lock().unwrap().is_empty()
-                    || self.actors.values().any(|s| s.jh.is_some() && matches!(s.sh.parked(), "Start" | "Handler" | "Stop"));
-                if busy {
-                    self.settle();
-                }
                 self.quiescent_event();
             }
             _ => self.inappl("unknown command"),
@@ -505,6 +498,11 @@ impl World {
         self.sample_all();
     }
 
+    fn busy(&self) -> bool {
+        !PENDING.lock().unwrap().is_empty()
+            || self.actors.values().any(|s| s.jh.is_some() && matches!(s.sh.parked(), "Start" | "Handler" | "Stop"))
+    }
+
     fn settle(&mut self) {
         for _round in 0..200 {
             let before = self.progress_marker();
@@ -587,7 +585,9 @@ pub fn run_schedule(run: u64, steps: &[Value], erased: bool, feats: &Value) -> (
             }
         }
     }
-    if !quiesced {
+    if !quiesced || w.busy() {
+        // the model believes nothing can move any more (or the schedule was cut): let the
+        // implementation run to its own quiescence and report again
         w.tail();
     }
     let inappl = w.inapplicable;
